@@ -317,6 +317,11 @@ def model_spec(draw, p=None, cls=None, shape=None):
           a['ctrlrange'] = [draw(fl(-2.0, -0.2)), draw(fl(0.2, 2.0))]
         if draw(st.integers(0, 2)) == 0:
           a['forcerange'] = [draw(fl(-5.0, -0.5)), draw(fl(0.5, 5.0))]
+        if p.get('limit_flags'):
+          # a declared range is in force when the flag is "true" or absent (autolimits), and ignored when it is "false"
+          for rng, flag in (('ctrlrange', 'ctrllimited'), ('forcerange', 'forcelimited')):
+            if a.get(rng) is not None:
+              a[flag] = draw(st.sampled_from(['true', 'false', 'auto', 'true']))
         acts.append(a)
   if p['gravity'] == 'zero':
     grav = [0.0, 0.0, 0.0]
@@ -406,10 +411,10 @@ def to_xml(spec, custom=None, strip_limits=False, no_collide=False, extra_option
         at += f' kp="{float(a["kp"])!r}"'
       if 'kv' in a:
         at += f' kv="{float(a["kv"])!r}"'
-      if a.get('ctrlrange') is not None:
-        at += f' ctrllimited="true" ctrlrange="{fmt(a["ctrlrange"])}"'
-      if a.get('forcerange') is not None:
-        at += f' forcelimited="true" forcerange="{fmt(a["forcerange"])}"'
+      for rng, flag in (('ctrlrange', 'ctrllimited'), ('forcerange', 'forcelimited')):
+        if a.get(rng) is not None:
+          fl_ = a.get(flag, 'true')
+          at += ('' if fl_ == 'auto' else f' {flag}="{fl_}"') + f' {rng}="{fmt(a[rng])}"'
       lines.append(f'    <{a["kind"]} {at}/>')
     lines.append('  </actuator>')
   lines.append('</mujoco>')
